@@ -787,6 +787,15 @@ impl Check for C14 {
         for k in 0..3 {
             out.push(json!({"envarg": k}));
         }
+        // a command level with fallback_to_usage below a switch of the enclosing level (the switch
+        // may be typed behind the command name)
+        {
+            let v = Named { names: Names::long("verbose"), kind: Kind::Switch, hidden: false, ty: Ty::Os, adjacent: false, guarded: false };
+            let mut sub = fam::leaf(vec![fam::named(4, Kind::Switch, 0, 0)], fam::pos(&[PosKind::Req]));
+            sub.usage_fallback = true;
+            let l = fam::leaf(vec![v], Tail::Cmds { cmds: vec![CmdDef { name: "cmd".into(), shorts: vec![], longs: vec![], level: sub }], wrap: CmdWrap::Required });
+            out.push(serde_json::to_value(Unit { level: l, len: tier.pick(2, 3), completers: vec![], fallback_with: false, decor: 0, hidden_cmds: vec![], completer_outer: false, shell_deco: false, untitled_groups: 0 }).unwrap());
+        }
         // the first item's long name is a prefix of a later item's (`--num`, `--num-threads`)
         for k1 in [Kind::ArgReq, Kind::ArgOpt, Kind::Switch] {
             for k2 in [Kind::Switch, Kind::ArgOpt] {
